@@ -236,6 +236,13 @@ def run_obligation(ob, src):
 PLAYBACK_RE = re.compile(r"```\n(.*?)```", re.S)
 
 
+def strip_doc(test):
+    """Kani puts the failed check's description into a doc comment; a multi-line description (an assert! over two lines)
+    breaks out of the comment, so only the test item itself is pasted into the harness module."""
+    i = test.find("#[test]")
+    return test[i:] if i >= 0 else test
+
+
 def make_replay(pid, ob, src, hdir, first_out, replay_dir):
     """Run concrete playback for the failed obligation; write the replay file; return (path, reproduced)."""
     os.makedirs(replay_dir, exist_ok=True)
@@ -254,7 +261,7 @@ def make_replay(pid, ob, src, hdir, first_out, replay_dir):
         test_name = re.search(r"fn (kani_concrete_playback_\w+)", test).group(1)
         hfile = os.path.join(hdir, ob["file"])
         with open(hfile, "a") as f:
-            f.write("\n#[cfg(test)]\nmod verif_playback_%s {\n    use super::*;\n%s\n}\n" % (ob["name"], test))
+            f.write("\n#[cfg(test)]\nmod verif_playback_%s {\n    use super::*;\n%s\n}\n" % (ob["name"], strip_doc(test)))
         pb = run_limited(["cargo", "kani", "playback", "-Z", "concrete-playback", "-p", ob["crate"], "--",
                           test_name], src, 900, 16 * 2**30)
         native_out = pb["out"]
@@ -299,7 +306,7 @@ def cmd_replay(path, repo):
         hfile = os.path.join(hdir, doc["harness_file"])
         with open(hfile, "a") as f:
             f.write("\n#[cfg(test)]\nmod verif_playback_replay {\n    use super::*;\n%s\n}\n" %
-                    doc["concrete_playback_test"])
+                    strip_doc(doc["concrete_playback_test"]))
         pb = run_limited(["cargo", "kani", "playback", "-Z", "concrete-playback", "-p", doc["crate"], "--",
                           doc["test_name"]], src, 1800, 16 * 2**30)
         log(pb["out"][-6000:])
